@@ -734,6 +734,22 @@ pub fn gen(prop: &str, tier: &str, seed: u64) -> Vec<String> {
                 fam_unary("norm", win, &d, &mut out);
                 fam_unary("pop", win, &d, &mut out);
                 fam_unary("valid", win, &d, &mut out);
+                // the two algorithms the UTF-8 family does not delegate (dot split and validity over CHARACTERS)
+                // against their character-level model (Spec/Chars.lean)
+                fam_unary("u8dot", win, &d, &mut out);
+                fam_unary("u8valid", win, &d, &mut out);
+                let mut nm: Vec<Vec<u8>> = strings(&[b".", b"a", "é".as_bytes(), "\u{12e}".as_bytes(), "😀".as_bytes()], if t { 6 } else { 5 });
+                for c in low_byte_chars() {
+                    nm.push(format!("a{}b", c).into_bytes());
+                    nm.push(format!("{}.{}", c, c).into_bytes());
+                    nm.push(format!("d{}x.{}", if win { '\\' } else { '/' }, c).into_bytes());
+                }
+                fam_unary("u8dot", win, &nm, &mut out);
+                fam_unary("u8valid", win, &nm, &mut out);
+                let only_utf8 = |v: Vec<Vec<u8>>| -> Vec<Vec<u8>> { v.into_iter().filter(|x| std::str::from_utf8(x).is_ok()).collect() };
+                let pd = only_utf8(if win { dom_win_small(tier, seed) } else { dom_unix_small(tier, seed) });
+                fam_unary("u8dot", win, &pd, &mut out);
+                fam_unary("u8valid", win, &pd, &mut out);
                 fam_mix(win, &d, 4, 3, seed, &mut out);
                 let args: Vec<Vec<u8>> = vec![b"".to_vec(), "é".as_bytes().to_vec(), "日/😀".as_bytes().to_vec(), "..\\é".as_bytes().to_vec(), "/é".as_bytes().to_vec(), "C:é".as_bytes().to_vec(), "é.日".as_bytes().to_vec()];
                 let dsmall: Vec<Vec<u8>> = d.iter().step_by(if t { 3 } else { 7 }).cloned().collect();
